@@ -50,6 +50,10 @@ pub enum Op {
     Sample,
     /// send a MeshSnapshot command (exercises the non-pause/resume command path)
     Snapshot(u8),
+    /// pause (cmd 0) / resume (1) / stop (2) of resource `r`, with the very next action of the
+    /// controller being an advance of that resource's manual clock (all manual clocks when
+    /// `all`) by `ns` - a step that stays short of a sleeping resource's deadline
+    Chased { cmd: u8, r: u8, via_handle: bool, ns: i64, all: bool },
 }
 
 #[derive(Clone, Debug, Serialize, Deserialize, PartialEq)]
@@ -68,6 +72,10 @@ pub struct Script {
     pub final_rev: bool,
     pub final_via_handle: bool,
     pub final_poll: bool,
+    /// teardown: every stop() is immediately followed by this advance of the stopped
+    /// resource's manual clock (a sub-interval step; nothing advances the clock afterwards)
+    #[serde(default)]
+    pub final_advance_ns: Option<i64>,
     pub reps: u16,
 }
 
@@ -126,11 +134,11 @@ pub fn normalise(s: &Script) -> Option<Script> {
     }
     s.ops.retain(|op| match op {
         Op::Pause(r) | Op::Resume(r) | Op::AwaitPaused(r) | Op::Snapshot(r) => *r < n,
-        Op::Stop { r, .. } | Op::AwaitCycles { r, .. } => *r < n,
+        Op::Stop { r, .. } | Op::AwaitCycles { r, .. } | Op::Chased { r, .. } => *r < n,
         Op::Advance { r, .. } => r.map(|r| r < n).unwrap_or(true),
         _ => true,
     });
-    s.interval_ns = s.interval_ns.clamp(0, 10_000_000);
+    s.interval_ns = s.interval_ns.clamp(0, 10_000_000_000);
     s.reps = s.reps.clamp(1, 400);
     Some(s)
 }
@@ -150,8 +158,9 @@ pub fn script_from_tape(tape: &Tape, reps: u16) -> Script {
     let interval_ns = if clock == 0 {
         [0i64, 100_000][r.pick(2)]
     } else {
-        [0i64, 1_000_000][r.pick(2)]
+        [0i64, 1_000_000, 10_000_000, 1_000_000_000][r.weighted(&[3, 3, 2, 2])]
     };
+    let manual = clock != 0;
     let wide = r.chance(1, 4);
     let n_res = 2 + r.pick(3);
     let n_cnt = 1 + r.pick(2);
@@ -221,7 +230,28 @@ pub fn script_from_tape(tape: &Tape, reps: u16) -> Script {
         });
     }
     let any_gated = resources.iter().any(|x| x.gated);
-    let manual = clock != 0;
+
+    // Manual-clock steps: fractions of the cycle interval (they do not reach the deadline of a
+    // resource sleeping between cycles) and multiples (they do).
+    let fractions: [i64; 3] = if interval_ns > 0 {
+        [1, (interval_ns / 10).max(1), interval_ns - 1]
+    } else {
+        [1, 1_000, 100_000]
+    };
+    let multiples: [i64; 3] = if interval_ns > 0 {
+        [interval_ns, interval_ns * 3, interval_ns * 10 + 7]
+    } else {
+        [1_000_000, 10_000_000, 50_000_000]
+    };
+    // 0 = fractions and multiples, 1 = only fractions (sleepers are never released by the clock)
+    let adv_mode = if manual { r.weighted(&[3, 2]) } else { 0 };
+    let step = |r: &mut Reader| -> i64 {
+        if adv_mode == 1 || r.chance(2, 5) {
+            fractions[r.pick(3)]
+        } else {
+            multiples[r.pick(3)]
+        }
+    };
 
     let mut ops: Vec<Op> = Vec::new();
     // where the gate is opened: 0 = first, 1 = somewhere, 2 = never (stop while gated)
@@ -241,6 +271,8 @@ pub fn script_from_tape(tape: &Tape, reps: u16) -> Script {
     let w_pause = [0u32, 2, 5][density];
     let w_seq = [0u32, 3, 6][density];
     let w_adv = if manual { 6 } else { 0 };
+    // pause/resume/stop immediately followed by a sub-interval clock step
+    let w_pair = if manual { 4 } else { 0 };
     let gate_pos = if gate_open_at == 1 { r.pick(n_ops) } else { usize::MAX };
     let fault_pos = if fault_res.is_some() && !r.chance(1, 4) { r.pick(n_ops) } else { usize::MAX };
     for idx in 0..n_ops {
@@ -251,7 +283,7 @@ pub fn script_from_tape(tape: &Tape, reps: u16) -> Script {
             ops.push(Op::AwaitFault);
         }
         let res = r.pick(n_res) as u8;
-        match r.weighted(&[4, w_pause, w_pause, w_seq, 1, w_adv, 3, 3, 2, 1]) {
+        match r.weighted(&[4, w_pause, w_pause, w_seq, 1, w_adv, 3, 3, 2, 1, w_pair]) {
             0 => perturb(&mut r, &mut ops),
             1 => ops.push(Op::Pause(res)),
             2 => ops.push(Op::Resume(res)),
@@ -264,39 +296,61 @@ pub fn script_from_tape(tape: &Tape, reps: u16) -> Script {
                 for _ in 0..inner {
                     match r.weighted(&[3, w_adv, 2, 1]) {
                         0 => perturb(&mut r, &mut ops),
-                        1 => ops.push(Op::Advance { r: None, ns: [1_000_000i64, 1, 10_000_000][r.pick(3)] }),
+                        1 => ops.push(Op::Advance { r: None, ns: step(&mut r) }),
                         2 => ops.push(Op::Sample),
                         _ => ops.push(Op::Snapshot(res)),
                     }
                 }
-                match r.weighted(&[5, 2, 1]) {
+                let tail = r.weighted(&[5, 2, 1]);
+                let chase = manual && r.chance(1, 3);
+                match tail {
                     0 => {
-                        ops.push(Op::Resume(res));
+                        if chase {
+                            ops.push(Op::Chased { cmd: 1, r: res, via_handle: false, ns: fractions[r.pick(3)], all: false });
+                        } else {
+                            ops.push(Op::Resume(res));
+                        }
                         if !r.chance(1, 3) {
                             ops.push(Op::AwaitCycles { r: res, n: 1 + r.pick(2) as u8 });
                         }
                     }
-                    1 => ops.push(Op::Stop { r: res, via_handle: r.flag(), poll: r.flag() }),
+                    1 => {
+                        if chase {
+                            ops.push(Op::Chased { cmd: 2, r: res, via_handle: r.flag(), ns: fractions[r.pick(3)], all: false });
+                        } else {
+                            ops.push(Op::Stop { r: res, via_handle: r.flag(), poll: r.flag() });
+                        }
+                    }
                     _ => {}
                 }
             }
             4 => ops.push(Op::Stop { r: res, via_handle: r.flag(), poll: r.flag() }),
             5 => {
                 let target = if r.chance(1, 3) { Some(res) } else { None };
-                ops.push(Op::Advance {
-                    r: target,
-                    ns: [1_000_000i64, 1_000_000, 1, 10_000, 50_000_000][r.pick(5)],
-                });
+                ops.push(Op::Advance { r: target, ns: step(&mut r) });
             }
             6 => ops.push(Op::Sample),
             7 => ops.push(Op::AwaitCycles { r: res, n: 1 + r.pick(4) as u8 }),
             8 => ops.push(Op::Snapshot(res)),
-            _ => ops.push(Op::Yield(1 + r.pick(30) as u16)),
+            9 => ops.push(Op::Yield(1 + r.pick(30) as u16)),
+            _ => {
+                // the wake-up of pause()/resume()/stop() chased by a clock step that stays
+                // short of the sleeper's deadline
+                let cmd = r.weighted(&[3, 2, 2]) as u8;
+                ops.push(Op::Chased {
+                    cmd,
+                    r: res,
+                    via_handle: r.flag(),
+                    ns: fractions[r.pick(3)],
+                    all: r.chance(1, 4),
+                });
+            }
         }
     }
     let final_rev = r.flag();
     let final_via_handle = r.flag();
     let final_poll = r.flag();
+    let final_advance_ns = if manual && r.chance(2, 3) { Some(fractions[r.pick(3)]) } else { None };
     Script {
         clock,
         interval_ns,
@@ -308,6 +362,7 @@ pub fn script_from_tape(tape: &Tape, reps: u16) -> Script {
         final_rev,
         final_via_handle,
         final_poll,
+        final_advance_ns,
         reps,
     }
 }
